@@ -133,7 +133,7 @@ func c18GenWorkload(t *rapid.T) c18WCase {
 	c.Seed = rapid.Uint64().Draw(t, "seed")
 	c.Cold = rapid.IntRange(0, 2).Draw(t, "cold") == 0
 	c.Lockstep = rapid.IntRange(0, 2).Draw(t, "lockstep") == 0
-	shape := rapid.SampledFrom([]string{"mixed", "mixed", "mixed", "mixed", "mixed", "cache-storm", "cache-storm", "sign-storm"}).Draw(t, "shape")
+	shape := rapid.SampledFrom([]string{"mixed", "mixed", "mixed", "mixed", "mixed", "cache-storm", "cache-storm", "sign-storm", "multiscalar-storm"}).Draw(t, "shape")
 	c.Shape = shape
 	var (
 		ng, minOps, maxOps int
@@ -163,12 +163,22 @@ func c18GenWorkload(t *rapid.T) c18WCase {
 		ng = rapid.SampledFrom([]int{4, 8, 12, 16}).Draw(t, "goroutines")
 		minOps, maxOps = 2, 5
 		kinds, keys, badOneIn = []string{"sign", "sign", "sign", "keygen", "mulbase", "x25519base", "srsign", "verify"}, []int{0, 1, 2, 3, 4, 5}, 6
+	case "multiscalar-storm":
+		// every goroutine verifies LARGE batches (>= 95 entries: the Pippenger
+		// multiscalar path and whatever scratch state it uses) at the same time
+		ng = rapid.SampledFrom([]int{4, 6, 8, 12, 16}).Draw(t, "goroutines")
+		minOps, maxOps = 2, 4
+		kinds, keys, badOneIn = []string{"batch", "batch", "batch", "verify"}, []int{0, 1, 2, 3, 4, 5}, 12
 	}
 	for g := 0; g < ng; g++ {
 		n := rapid.IntRange(minOps, maxOps).Draw(t, "nops")
 		var ops []c18Op
 		for i := 0; i < n; i++ {
-			ops = append(ops, c18GenOp(t, kinds, keys, badOneIn))
+			op := c18GenOp(t, kinds, keys, badOneIn)
+			if shape == "multiscalar-storm" {
+				op.X -= ((op.X >> 44) % 6) << 44 // select the large-batch plan
+			}
+			ops = append(ops, op)
 		}
 		c.G = append(c.G, ops)
 	}
@@ -233,14 +243,37 @@ type c18BatchEntry struct {
 	Bad  int
 }
 
+func c18Mix(x uint64) uint64 {
+	x += 0x9e3779b97f4a7c15
+	x = (x ^ (x >> 30)) * 0xbf58476d1ce4e5b9
+	x = (x ^ (x >> 27)) * 0x94d049bb133111eb
+	return x ^ (x >> 31)
+}
+
 func c18BatchPlan(op c18Op) []c18BatchEntry {
 	n := 2 + int(op.X%3)
+	if (op.X>>44)%6 == 0 {
+		// large batch: >= 95 entries = >= 191 terms, the multiscalar
+		// multiplication switches from Straus to Pippenger (shared scratch state,
+		// if any, is exercised concurrently)
+		n = 95 + int(op.X%4)
+	}
 	badAt := int((op.X >> 20) % uint64(n))
 	out := make([]c18BatchEntry, n)
 	for j := 0; j < n; j++ {
 		e := c18BatchEntry{}
-		e.K = (op.K + int((op.X>>(8+3*uint(j)))&7)) % 8
-		e.Mode = int((op.X >> (32 + 2*uint(j))) % 3)
+		x := op.X
+		jj := uint(j)
+		if j >= 8 {
+			x, jj = c18Mix(op.X+uint64(j)), 0
+		}
+		e.K = (op.K + int((x>>(8+3*jj))&7)) % 8
+		if n >= 95 {
+			// large batches use the six valid keys only: one hostile key would make
+			// the verifier skip the multiscalar multiplication altogether
+			e.K = (op.K%6 + int((x>>(8+3*jj))&7)) % 6
+		}
+		e.Mode = int((x >> (32 + 2*jj)) % 3)
 		if e.Mode == 1 {
 			e.K %= 2
 		}
